@@ -18,14 +18,15 @@ from .common import case, guarded, ordinal_instance, strict, rand_perm
 ID = "C18"
 RULE = ("approx: exhaustive all non-empty sets of <= 2 distinct strict orders m <= 3; random / planted k-partitions "
         "(votes single-peaked on each of k hidden blocks, randomly interleaved) / planted + noise, m <= 25, n <= 15, "
-        "arbitrary positive ids; checker at every size, reference optimum for m <= 7. "
+        "arbitrary positive ids; checker at every size, reference optimum for m <= 8. "
         "brute force: every k in 1..m+1; exhaustive all non-empty sets of <= 2 distinct strict orders for m <= 3 "
-        "(thorough: all sets of <= 3), sampled sets for m = 4, random/planted m <= 6 (thorough 7), n <= 4, odd and even m, "
+        "(thorough: all sets of <= 3), sampled sets for m = 4, random/planted/cyclic m <= 7 (thorough 8) plus some at m = 8 "
+        "(thorough 9), n <= 4 (cyclic-shift profiles up to n = m), odd and even m, "
         "m = 1 and m = 2 included. non-trivial = reference optimum >= 2 axes")
 EXHAUSTIVE = {"quick": "all sets of 1-2 distinct strict orders over m<=3 alternatives (both functions, every k in 1..m+1)",
               "thorough": "all sets of 1-3 distinct strict orders over m<=3 alternatives; all pairs of orders for m=4 "
                           "(both functions, every k in 1..m+1)"}
-TRUSTED = ["(R) not verified, compared with the verified reference min_partition on bounded inputs (m <= 7) and through the "
+TRUSTED = ["(R) not verified, compared with the verified reference min_partition on bounded inputs (m <= 8, thorough 9) and through the "
            "verified checker partition_check at every size: k_alt_partition_approx, longest_single_peaked_axis "
            "(Erdelyi-Lackner-Pfandler dynamic programme: get_L_sets, eligible_alternatives, last_check, place, case_2, "
            "case_3, check_case_4, boundary), k_alternative_partition_brut_force (dfs, extend, "
@@ -169,7 +170,7 @@ def generate(tier, seed):
             votes = [v, v[::-1]] + [rand_perm(rng, alts) for _ in range(n - 2)]
         elif style == 4:      # cyclic shifts: no three alternatives are single-peaked together when all shifts are present
             v = rand_perm(rng, alts)
-            sh = rng.sample(range(m), min(m, rng.randint(2, 6)))
+            sh = rng.sample(range(m), m if i % 18 == 4 else min(m, rng.randint(2, 6)))
             votes = [v[j:] + v[:j] for j in sh]
         else:                 # many random votes: optimum close to ceil(m/2)
             votes = [rand_perm(rng, alts) for _ in range(rng.randint(3, 4))]
